@@ -14,6 +14,8 @@ def uint(v: int, w: int) -> str:
 
 
 def sint(v: int, w: int) -> str:
+    if w == 0 and v == 0:
+        return ''          # int0: the value 0 in no bits
     if w < 1 or not (-(1 << (w - 1)) <= v < (1 << (w - 1))):
         raise RefRangeError(f'{v} does not fit int{w}')
     return format(v & ((1 << w) - 1), f'0{w}b')
